@@ -268,6 +268,68 @@ theorem capped_le_uncapped_partial (inputs : List (List Ix)) (output : List Ix) 
   exact key path _ _ (Tracker.init _ c1) (Tracker.init _ c2) (HG.le_refl _) (Nat.le_refl _)
     (Nat.le_refl _) h1 t1 hr
 
+/-! ## without truncation the tracker is exact, step by step -/
+
+/-- the initial tracker: `write = peak = total = Σ input sizes`, `max_size` = the largest input —
+    the inputs are counted (scoring.py:366-375) -/
+theorem init_counts_inputs (h : HG) (chi : Nat) :
+    (Tracker.init h chi).write = (h.nodes.map fun kv => h.nodeSize kv.1).sum ∧
+    (Tracker.init h chi).maxSize = (h.nodes.map fun kv => h.nodeSize kv.1).foldl max 0 ∧
+    (Tracker.init h chi).flops = 0 := ⟨rfl, rfl, rfl⟩
+
+/-- **uncapped_eq_exact_partial.** Let the hypergraph `h` (with forest `F`) be reached from the
+    network (no repeated indices) by plain contractions, and let one step of
+    `compressed_contract_stats` contract the nodes standing for the sub-trees `a`, `b` while its
+    compression branches change nothing (`hpre`, `hpost`: nothing to merge — the regime "cap at
+    least every bond" after `compress_preserves_product`). Then that step adds to `write`, and maxes
+    into `max_size`, exactly the tree's size of `node a b`; the state is again reached by plain
+    contractions; and, when no QR term arises and neither operand is an input with a dangling
+    index, it adds exactly the tree's flops of the step.
+    Together with `init_counts_inputs`: `write = Σ input sizes + Σ get_size`, `max_size =
+    max(largest input, largest intermediate)`, `flops = Σ get_flops`.
+    Not proved (hence `_partial`): that `compress` with a large cap acts as the identity on all
+    later sizes and costs when it *does* merge edges (only the single merge is proved above). -/
+theorem uncapped_eq_exact_partial (n : Net) (hnr : NoRepeat n) (path0 : List (Nat × Nat)) (h : HG)
+    (F : Forest) (hrun : C18.hgRun n path0 = some (h, F)) (chi : Nat) (late : Bool) (tr : Tracker)
+    (i j : Nat) (hij : i ≠ j) (a b : BT) (ha : AL.get? F i = some a) (hb : AL.get? F j = some b)
+    (hpre : HG.preHG chi late h i j = h)
+    (h' : HG) (tr' : Tracker) (hs : HG.statsStep chi late (some (h, tr)) (i, j) = some (h', tr'))
+    (hpost : ∀ pi h2, h.contract i j = some (pi, h2) → HG.postHG chi late h2 pi = h2) :
+    tr'.write = tr.write + n.nodeSize [] (.node a b) ∧
+    tr'.maxSize = max tr.maxSize (n.nodeSize [] (.node a b)) ∧
+    (∃ F', C18.hgRun n (path0 ++ [(i, j)]) = some (h', F')) ∧
+    ((∀ x, a = .leaf x → C18.NoDanglingAt n x) → (∀ x, b = .leaf x → C18.NoDanglingAt n x) →
+      (late = true → h.neighborhoodCompressCost tr.chi [i, j] = 0) →
+      (late = false → ∀ pi h2, h.contract i j = some (pi, h2) → h2.neighborhoodCompressCost tr.chi [pi] = 0) →
+      tr'.flops = tr.flops + n.nodeFlops [] (.node a b)) := by
+  have inv := runPath_inv n hnr path0 _ _ h F (inv_init n hnr) hrun
+  obtain ⟨pi, h2, hcon, e1, ew, em⟩ := statsStep_totals chi late h tr (i, j) h' tr' hs
+  simp only at hcon
+  rw [hpre] at hcon
+  obtain ⟨h2', F', hc2, hf2, inv2, hFnew, _⟩ := inv_step n hnr h F i j hij inv a b ha hb
+  rw [hc2] at hcon
+  simp only [Option.some.injEq, Prod.mk.injEq] at hcon
+  obtain ⟨rfl, rfl⟩ := hcon
+  have hh' : h' = h2' := by rw [e1]; exact hpost _ _ hc2
+  -- the extended plain run
+  have hrun' : C18.hgRun n (path0 ++ [(i, j)]) = some (h2', F') := by
+    unfold C18.hgRun at hrun ⊢
+    rw [runPath_append, hrun]
+    simp only [Option.bind_some, runPath, hij, if_false, hc2, hf2]
+  have hNnew : AL.has h2'.nodes h.nextCand = true := by
+    rw [← inv2.dom]; exact (AL.has_iff _ _).2 ⟨_, hFnew⟩
+  obtain ⟨inds, hinds⟩ := (AL.has_iff _ _).1 hNnew
+  have hsz := (C18.hg_contract_legs n hnr _ h2' F' hrun' h.nextCand a b inds hFnew hinds).2.2.2
+  refine ⟨by rw [ew, hsz], by rw [em, hsz], ⟨F', by rw [hh']; exact hrun'⟩, ?_⟩
+  intro hda hdb hq1 hq2
+  have hfl := statsStep_flops chi late h tr (i, j) h' tr' hs h.nextCand h2' (by simp only; rw [hpre]; exact hc2)
+  simp only at hfl
+  rw [hpre] at hfl
+  rw [hfl, C18.hg_cost_eq_tree_partial n hnr path0 h F hrun i j a b hij ha hb hda hdb]
+  cases late
+  · simp [hq2 rfl _ _ hc2]
+  · simp [hq1 rfl]
+
 /-! ## the compressed tracker counts the inputs -/
 
 def bigInputNet : Net := { inputs := [[0, 1, 2], [2]], output := [], sizes := [(0, 2), (1, 2), (2, 2)] }
